@@ -131,6 +131,9 @@ func c10Generate(thorough bool) []c10Case {
 				tc3Lists = append(tc3Lists, []string{t1, t2})
 			}
 		}
+	} else {
+		// the pair behind F39 in the quick tier too
+		tc3Lists = append(tc3Lists, []string{"PRIMARY KEY (a, b, a)", "UNIQUE (a, b, a)"}, []string{"UNIQUE (a, b, a)", "PRIMARY KEY (a, b, a)"})
 	}
 	for _, ca := range red3 {
 		for _, cb := range red3 {
@@ -496,6 +499,18 @@ func c10Class(stmts []string) string {
 	}
 	if strings.Contains(up, "PRIMARY KEY (A, A)") {
 		return ":duplicate-pk-column"
+	}
+	if strings.Contains(up, "WITHOUT ROWID") {
+		// F39: a key that names a column again, next to a UNIQUE constraint over the very same written list
+		plain := up
+		if strings.Contains(up, "(A COLLATE NOCASE,") {
+			plain = strings.ReplaceAll(up, "A COLLATE NOCASE)", "A)") // the same list where column a is declared NOCASE
+		}
+		for _, list := range []string{"(A, B, A)", "(C, A, C, B)"} {
+			if strings.Contains(plain, "PRIMARY KEY "+list) && strings.Contains(plain, "UNIQUE "+list) {
+				return ":repeated-key-column-and-same-unique"
+			}
+		}
 	}
 	if strings.Contains(up, "+ 1 COLLATE") || strings.Contains(up, "|| '' COLLATE") {
 		// COLLATE directly behind the right operand of a binary operator (F18)
